@@ -40,6 +40,7 @@ def canon(v, d=0):
 P, Q = "_refP_", "_refQ_"
 A, B = "_refA_", "_refB_"   # no leading double underscore: class bodies would mangle it
 V = "_refV_"
+LINKS = (ast.Attribute, ast.Subscript, ast.Call)
 
 
 def call(fn, *args):
@@ -124,7 +125,7 @@ class Ref(ast.NodeTransformer):
 
     def visit_Call(self, node):
         inside = self.in_chain
-        self.in_chain = True
+        self.in_chain = isinstance(node.func, LINKS)         # any other expression ends the chain
         f = self.visit(node.func)
         self.in_chain = False                       # arguments start afresh
         f = self.after("before_call", node, f)
@@ -141,7 +142,7 @@ class Ref(ast.NodeTransformer):
 
     def visit_Attribute(self, node):
         inside = self.in_chain
-        self.in_chain = True
+        self.in_chain = isinstance(node.value, LINKS)
         v = self.visit(node.value)
         self.in_chain = inside
         if isinstance(node.ctx, ast.Load):
@@ -156,7 +157,7 @@ class Ref(ast.NodeTransformer):
         # pyccolo's before_subscript_* events carry the evaluated subscript too, so they fire once BOTH the object and the
         # subscript have been evaluated (DESIGN section 11): the object is parked, the probe fires after the slice
         inside = self.in_chain
-        self.in_chain = True
+        self.in_chain = isinstance(node.value, LINKS)
         v = self.visit(node.value)
         self.in_chain = False                       # the index starts afresh
         s = self.visit(node.slice)
@@ -312,6 +313,12 @@ class Ref(ast.NodeTransformer):
         node.orelse = self.body(node.orelse)
         return node
 
+    def visit_AsyncFor(self, node):
+        return self.visit_For(node)
+
+    def visit_AsyncFunctionDef(self, node):
+        return self.visit_FunctionDef(node)
+
     def visit_FunctionDef(self, node):
         orig = node
         self.generic_visit(node.args)
@@ -321,12 +328,12 @@ class Ref(ast.NodeTransformer):
             doc, body = [body[0]], body[1:]
         decls = [s for s in body if isinstance(s, (ast.Global, ast.Nonlocal))]
         rest = [s for s in body if not isinstance(s, (ast.Global, ast.Nonlocal))]
-        new = self.body(rest)
-        if "before_function_body" in self.ev and rest:
+        new = self.body(rest) or [ast.Pass()]         # a body of only a docstring / declarations is an invocation all the same
+        if "before_function_body" in self.ev:
             new = [self.stmt_probe("before_function_body", orig)] + new
-        if "after_function_execution" in self.ev and rest:
+        if "after_function_execution" in self.ev:
             new = [ast.Try(body=new, handlers=[], orelse=[], finalbody=[self.stmt_probe("after_function_execution", orig)])]
-        node.body = doc + decls + new or [ast.Pass()]
+        node.body = doc + decls + new
         node.decorator_list = [self.after("decorator", d, self.visit(d)) for d in node.decorator_list]
         return node
 
@@ -334,7 +341,7 @@ class Ref(ast.NodeTransformer):
         node.bases = [self.visit(b) for b in node.bases]
         node.keywords = [ast.keyword(arg=k.arg, value=self.visit(k.value)) for k in node.keywords]
         node.body = self.body(node.body, docstring=True)
-        node.decorator_list = [self.visit(d) for d in node.decorator_list]
+        node.decorator_list = [self.after("decorator", d, self.visit(d)) for d in node.decorator_list]
         return node
 
     def visit_Try(self, node):
